@@ -99,10 +99,10 @@ Definition store_spec (ops : ddops con) (Inv : dd con -> Prop)
            (view : dd con -> dkey -> option con) (good : dkey -> Prop) : Prop :=
   (forall d k, Inv d -> good k ->
      fst (o_contains ops d k) = (match view d k with Some _ => true | None => false end) /\
-     Inv (snd (o_contains ops d k)) /\ (forall k', view (snd (o_contains ops d k)) k' = view d k')) /\
+     Inv (snd (o_contains ops d k)) /\ (forall k', good k' -> view (snd (o_contains ops d k)) k' = view d k')) /\
   (forall d k, Inv d -> good k ->
      fst (o_getitem ops d k) = (match view d k with Some c => Ok c | None => KeyErr end) /\
-     Inv (snd (o_getitem ops d k)) /\ (forall k', view (snd (o_getitem ops d k)) k' = view d k')) /\
+     Inv (snd (o_getitem ops d k)) /\ (forall k', good k' -> view (snd (o_getitem ops d k)) k' = view d k')) /\
   (forall d k c, Inv d -> good k ->
      Inv (o_setitem ops d k c) /\ view (o_setitem ops d k c) k = Some c /\
      (forall k', good k' -> k' <> k -> view (o_setitem ops d k c) k' = view d k')).
@@ -129,13 +129,14 @@ Variable orc : nat -> net -> con.
 Variable Inv : dd con -> Prop.
 Variable view : dd con -> dkey -> option con.
 Variable good : dkey -> Prop.
+Variable okcfg : cfg -> Prop.      (* the configurations whose keys the store is specified for *)
 Hypothesis SP : store_spec ops Inv view good.
-Hypothesis key_good : forall c q, good (key_of H c q).
+Hypothesis key_good : forall c q, okcfg c -> good (key_of H c q).
 
 Notation mrun := (maybe_run H ops orc).
 
 (* the refinement lemma: the machine implements spec_step on the store's abstraction *)
-Theorem maybe_run_refines c d ns q : Inv d ->
+Theorem maybe_run_refines c d ns q : okcfg c -> Inv d ->
   let k := key_of H c q in
   let st' := snd (mrun c (d, ns) q) in
   let sp := spec_step c (view d k) (orc ns q) in
@@ -145,13 +146,13 @@ Theorem maybe_run_refines c d ns q : Inv d ->
   view (fst st') k = (match fst (snd sp) with Some x => Some x | None => view d k end) /\
   (forall k', good k' -> k' <> k -> view (fst st') k' = view d k').
 Proof.
-  intros HI k st' sp. destruct SP as (SC & SG & SS).
-  pose proof (key_good c q) as Gk. fold k in Gk.
+  intros OK HI k st' sp. destruct SP as (SC & SG & SS).
+  pose proof (key_good c q OK) as Gk. fold k in Gk.
   destruct (SC d k HI Gk) as (C1 & C2 & C3).
   unfold st', sp, maybe_run. fold k.
   destruct (o_contains ops d k) as [present d1] eqn:EC. cbn [fst snd] in C1, C2, C3.
   destruct (SG d1 k C2 Gk) as (G1 & G2 & G3).
-  assert (V1 : view d1 k = view d k) by apply C3.
+  assert (V1 : view d1 k = view d k) by (apply C3; exact Gk).
   unfold spec_step.
   destruct (view d k) as [old|] eqn:EV.
   - (* present *)
@@ -161,25 +162,25 @@ Proof.
     + (* OvFalse: plain hit *)
       destruct (o_getitem ops d1 k) as [r d2] eqn:EG. cbn [fst snd] in *. subst r. cbn [fst snd].
       repeat split; try assumption; try reflexivity.
-      * rewrite G3. exact V1.
-      * intros k' _ _. rewrite G3. apply C3.
+      * rewrite G3 by exact Gk. exact V1.
+      * intros k' Gk' _. rewrite G3 by exact Gk'. apply C3, Gk'.
     + (* OvTrue *)
       destruct (cache_only c); cbn [fst snd].
-      * repeat split; try assumption; try reflexivity. intros k' _ _. apply C3.
+      * repeat split; try assumption; try reflexivity. intros k' Gk' _. apply C3, Gk'.
       * destruct (SS d1 k (orc ns q) C2 Gk) as (S1 & S2 & S3).
         repeat split; try assumption; try reflexivity.
-        intros k' Gk' Hne. rewrite S3 by assumption. apply C3.
+        intros k' Gk' Hne. rewrite S3 by assumption. apply C3, Gk'.
     + (* OvImproved *)
       destruct (cache_only c); cbn [fst snd].
-      * repeat split; try assumption; try reflexivity. intros k' _ _. apply C3.
+      * repeat split; try assumption; try reflexivity. intros k' Gk' _. apply C3, Gk'.
       * destruct (o_getitem ops d1 k) as [r d2] eqn:EG. cbn [fst snd] in *. subst r.
         destruct (c_score (orc ns q) <? c_score old)%Z; cbn [fst snd].
         -- destruct (SS d2 k (orc ns q) G2 Gk) as (S1 & S2 & S3).
            repeat split; try assumption; try reflexivity.
-           intros k' Gk' Hne. rewrite S3 by assumption. rewrite G3. apply C3.
+           intros k' Gk' Hne. rewrite S3 by assumption. rewrite G3 by exact Gk'. apply C3, Gk'.
         -- repeat split; try assumption; try reflexivity.
-           ++ rewrite G3. exact V1.
-           ++ intros k' _ _. rewrite G3. apply C3.
+           ++ rewrite G3 by exact Gk. exact V1.
+           ++ intros k' Gk' _. rewrite G3 by exact Gk'. apply C3, Gk'.
   - (* missing *)
     subst present. cbn [negb orb].
     assert (E : (match overwrite c with OvFalse => (if cache_only c then (KeyErr, (None, false)) else (Ok (true, orc ns q), (Some (orc ns q), true)))
@@ -187,10 +188,10 @@ Proof.
                 = (if cache_only c then (@KeyErr (bool * con), (@None con, false)) else (Ok (true, orc ns q), (Some (orc ns q), true))))
       by (destruct (overwrite c); reflexivity).
     destruct (cache_only c); cbn [fst snd].
-    + destruct (overwrite c); cbn [fst snd]; repeat split; try assumption; try reflexivity; intros k' _ _; apply C3.
+    + destruct (overwrite c); cbn [fst snd]; repeat split; try assumption; try reflexivity; intros k' Gk' _; apply C3, Gk'.
     + destruct (SS d1 k (orc ns q) C2 Gk) as (S1 & S2 & S3).
       destruct (overwrite c); cbn [fst snd]; repeat split; try assumption; try reflexivity;
-        intros k' Gk' Hne; (rewrite S3 by assumption); apply C3.
+        intros k' Gk' Hne; (rewrite S3 by assumption); apply C3, Gk'.
 Qed.
 End MachineFacts.
 
@@ -201,20 +202,23 @@ Variable orc : nat -> net -> con.
 Variable Inv : dd con -> Prop.
 Variable view : dd con -> dkey -> option con.
 Variable good : dkey -> Prop.
+Variable okcfg : cfg -> Prop.
 Hypothesis SP : store_spec ops Inv view good.
-Hypothesis key_good : forall c q, good (key_of H c q).
+Hypothesis key_good : forall c q, okcfg c -> good (key_of H c q).
+Variable c : cfg.
+Hypothesis OK : okcfg c.
 
 Notation mrun := (maybe_run H ops orc).
-Notation refines := (maybe_run_refines H ops orc Inv view good SP key_good).
+Notation refines := (fun d ns q HI => maybe_run_refines H ops orc Inv view good okcfg SP key_good c d ns q OK HI).
 
 (* whatever is handed out is, afterwards, the entry stored under the QUERY's own key;
    an answer given without running the sub-optimizer was that entry already *)
-Theorem answer_is_stored c d ns q b cn : Inv d ->
+Theorem answer_is_stored d ns q b cn : Inv d ->
   fst (mrun c (d, ns) q) = Ok (b, cn) ->
   view (fst (snd (mrun c (d, ns) q))) (key_of H c q) = Some cn /\
   (b = false -> view d (key_of H c q) = Some cn).
 Proof.
-  intros HI E. destruct (refines c d ns q HI) as (R1 & _ & _ & R4 & _).
+  intros HI E. destruct (refines d ns q HI) as (R1 & _ & _ & R4 & _).
   rewrite E in R1. rewrite R4. clear R4. unfold spec_step in *.
   destruct (view d (key_of H c q)) as [old|]; destruct (overwrite c); destruct (cache_only c); cbn in *;
     try discriminate;
@@ -223,10 +227,10 @@ Proof.
 Qed.
 
 (* with overwrite=False an entry, once present, never changes ... *)
-Theorem ovfalse_entry_stable c d ns q k0 cn : Inv d -> overwrite c = OvFalse -> good k0 ->
+Theorem ovfalse_entry_stable d ns q k0 cn : Inv d -> overwrite c = OvFalse -> good k0 ->
   view d k0 = Some cn -> view (fst (snd (mrun c (d, ns) q))) k0 = Some cn.
 Proof.
-  intros HI EO G0 V. destruct (refines c d ns q HI) as (_ & _ & _ & R4 & R5).
+  intros HI EO G0 V. destruct (refines d ns q HI) as (_ & _ & _ & R4 & R5).
   destruct (dkey_eqb k0 (key_of H c q)) eqn:E.
   - apply dkey_eqb_eq in E. subst k0. rewrite R4. unfold spec_step. rewrite V, EO. reflexivity.
   - rewrite R5; [exact V|exact G0|]. intros ->.
@@ -234,24 +238,24 @@ Proof.
 Qed.
 
 (* ... so repeating a query returns the same record and does not search again *)
-Theorem repeat_query_no_search_same_path c d ns q b cn : Inv d -> overwrite c = OvFalse ->
+Theorem repeat_query_no_search_same_path d ns q b cn : Inv d -> overwrite c = OvFalse ->
   fst (mrun c (d, ns) q) = Ok (b, cn) ->
   let st1 := snd (mrun c (d, ns) q) in
   fst (mrun c st1 q) = Ok (false, cn) /\ snd (snd (mrun c st1 q)) = snd st1.
 Proof.
-  intros HI EO E st1. destruct (answer_is_stored c d ns q b cn HI E) as [V _].
-  destruct (refines c d ns q HI) as (_ & _ & I1 & _ & _). fold st1 in V, I1.
+  intros HI EO E st1. destruct (answer_is_stored d ns q b cn HI E) as [V _].
+  destruct (refines d ns q HI) as (_ & _ & I1 & _ & _). fold st1 in V, I1.
   destruct st1 as [d1 ns1]. cbn [fst snd] in *.
-  destruct (refines c d1 ns1 q I1) as (R1 & R2 & _). rewrite R1, R2.
+  destruct (refines d1 ns1 q I1) as (R1 & R2 & _). rewrite R1, R2.
   unfold spec_step. rewrite V, EO. split; reflexivity.
 Qed.
 
 (* overwrite='improved': the stored score of any entry never gets worse *)
-Theorem improved_monotone c d ns q k0 old : Inv d -> overwrite c = OvImproved -> good k0 ->
+Theorem improved_monotone d ns q k0 old : Inv d -> overwrite c = OvImproved -> good k0 ->
   view d k0 = Some old ->
   exists new, view (fst (snd (mrun c (d, ns) q))) k0 = Some new /\ (c_score new <= c_score old)%Z.
 Proof.
-  intros HI EO G0 V. destruct (refines c d ns q HI) as (_ & _ & _ & R4 & R5).
+  intros HI EO G0 V. destruct (refines d ns q HI) as (_ & _ & _ & R4 & R5).
   destruct (dkey_eqb k0 (key_of H c q)) eqn:E.
   - apply dkey_eqb_eq in E. subst k0. rewrite R4. unfold spec_step. rewrite V, EO.
     destruct (cache_only c); cbn [fst snd]; [exists old; split; [reflexivity|lia]|].
@@ -263,12 +267,12 @@ Proof.
 Qed.
 
 (* cache_only: the sub-optimizer is never run and no entry changes *)
-Theorem cache_only_never_searches c d ns q : Inv d -> cache_only c = true ->
+Theorem cache_only_never_searches d ns q : Inv d -> cache_only c = true ->
   snd (snd (mrun c (d, ns) q)) = ns /\
   (forall k, good k -> view (fst (snd (mrun c (d, ns) q))) k = view d k) /\
   (forall b cn, fst (mrun c (d, ns) q) = Ok (b, cn) -> b = false /\ view d (key_of H c q) = Some cn).
 Proof.
-  intros HI EC. destruct (refines c d ns q HI) as (R1 & R2 & _ & R4 & R5).
+  intros HI EC. destruct (refines d ns q HI) as (R1 & R2 & _ & R4 & R5).
   assert (SPEC : spec_step c (view d (key_of H c q)) (orc ns q) =
                  match view d (key_of H c q), overwrite c with
                  | Some old, OvFalse => (Ok (false, old), (None, false))
@@ -288,16 +292,16 @@ Qed.
 (* the behaviour depends on the store only through its abstraction: two states that hold the
    same entries (e.g. the writer's process and a fresh process over the same directory)
    answer every query alike and keep holding the same entries *)
-Theorem view_determines_behaviour c d1 d2 ns q : Inv d1 -> Inv d2 ->
+Theorem view_determines_behaviour d1 d2 ns q : Inv d1 -> Inv d2 ->
   (forall k, good k -> view d1 k = view d2 k) ->
   fst (mrun c (d1, ns) q) = fst (mrun c (d2, ns) q) /\
   snd (snd (mrun c (d1, ns) q)) = snd (snd (mrun c (d2, ns) q)) /\
   (forall k, good k -> view (fst (snd (mrun c (d1, ns) q))) k = view (fst (snd (mrun c (d2, ns) q))) k).
 Proof.
   intros I1 I2 EV.
-  destruct (refines c d1 ns q I1) as (A1 & A2 & _ & A4 & A5).
-  destruct (refines c d2 ns q I2) as (B1 & B2 & _ & B4 & B5).
-  pose proof (EV _ (key_good c q)) as Ek. rewrite Ek in A1, A2, A4.
+  destruct (refines d1 ns q I1) as (A1 & A2 & _ & A4 & A5).
+  destruct (refines d2 ns q I2) as (B1 & B2 & _ & B4 & B5).
+  pose proof (EV _ (key_good c q OK)) as Ek. rewrite Ek in A1, A2, A4.
   split; [congruence|]. split; [congruence|].
   intros k Gk. destruct (dkey_eqb k (key_of H c q)) eqn:E.
   - apply dkey_eqb_eq in E. subst k. rewrite A4, B4. reflexivity.
@@ -307,7 +311,7 @@ Proof.
 Qed.
 
 (* ---- whole sessions ------------------------------------------------------------------ *)
-Lemma run_queries_cons c st q qs :
+Lemma run_queries_cons st q qs :
   run_queries H ops orc c st (q :: qs) =
   (fst (mrun c st q) :: fst (run_queries H ops orc c (snd (mrun c st q)) qs),
    snd (run_queries H ops orc c (snd (mrun c st q)) qs)).
@@ -316,47 +320,214 @@ Proof.
   destruct (run_queries H ops orc c st1 qs) as [rs st2]. reflexivity.
 Qed.
 
-Theorem session_inv c qs : forall d ns, Inv d -> Inv (fst (snd (run_queries H ops orc c (d, ns) qs))).
+Theorem session_inv qs : forall d ns, Inv d -> Inv (fst (snd (run_queries H ops orc c (d, ns) qs))).
 Proof.
   induction qs as [|q qs IH]; intros d ns HI; [exact HI|].
   rewrite run_queries_cons. cbn [snd].
-  destruct (refines c d ns q HI) as (_ & _ & I1 & _).
+  destruct (refines d ns q HI) as (_ & _ & I1 & _).
   destruct (snd (mrun c (d, ns) q)) as [d1 ns1]. apply IH. exact I1.
 Qed.
 
-Theorem session_cache_only_never_searches c qs : cache_only c = true -> forall d ns, Inv d ->
+Theorem session_cache_only_never_searches qs : cache_only c = true -> forall d ns, Inv d ->
   snd (snd (run_queries H ops orc c (d, ns) qs)) = ns /\
   (forall k, good k -> view (fst (snd (run_queries H ops orc c (d, ns) qs))) k = view d k).
 Proof.
   intros EC. induction qs as [|q qs IH]; intros d ns HI; [split; reflexivity|].
   rewrite run_queries_cons. cbn [snd].
-  destruct (cache_only_never_searches c d ns q HI EC) as (N1 & V1 & _).
-  destruct (refines c d ns q HI) as (_ & _ & I1 & _).
+  destruct (cache_only_never_searches d ns q HI EC) as (N1 & V1 & _).
+  destruct (refines d ns q HI) as (_ & _ & I1 & _).
   destruct (snd (mrun c (d, ns) q)) as [d1 ns1]. cbn [fst snd] in *. subst ns1.
   destruct (IH d1 ns I1) as (N2 & V2). split; [exact N2|].
   intros k Gk. rewrite V2 by exact Gk. apply V1, Gk.
 Qed.
 
-Theorem session_improved_monotone c qs : overwrite c = OvImproved -> forall d ns k0 old, Inv d -> good k0 ->
+Theorem session_improved_monotone qs : overwrite c = OvImproved -> forall d ns k0 old, Inv d -> good k0 ->
   view d k0 = Some old ->
   exists new, view (fst (snd (run_queries H ops orc c (d, ns) qs))) k0 = Some new /\ (c_score new <= c_score old)%Z.
 Proof.
   intros EO. induction qs as [|q qs IH]; intros d ns k0 old HI G0 V; [exists old; split; [exact V|lia]|].
   rewrite run_queries_cons. cbn [snd].
-  destruct (improved_monotone c d ns q k0 old HI EO G0 V) as (mid & Vm & Lm).
-  destruct (refines c d ns q HI) as (_ & _ & I1 & _).
+  destruct (improved_monotone d ns q k0 old HI EO G0 V) as (mid & Vm & Lm).
+  destruct (refines d ns q HI) as (_ & _ & I1 & _).
   destruct (snd (mrun c (d, ns) q)) as [d1 ns1]. cbn [fst snd] in *.
   destruct (IH d1 ns1 k0 mid I1 G0 Vm) as (new & Vn & Ln). exists new. split; [exact Vn|lia].
 Qed.
 
-Theorem session_ovfalse_stable c qs : overwrite c = OvFalse -> forall d ns k0 cn, Inv d -> good k0 ->
+Theorem session_ovfalse_stable qs : overwrite c = OvFalse -> forall d ns k0 cn, Inv d -> good k0 ->
   view d k0 = Some cn -> view (fst (snd (run_queries H ops orc c (d, ns) qs))) k0 = Some cn.
 Proof.
   intros EO. induction qs as [|q qs IH]; intros d ns k0 cn HI G0 V; [exact V|].
   rewrite run_queries_cons. cbn [snd].
-  pose proof (ovfalse_entry_stable c d ns q k0 cn HI EO G0 V) as V1.
-  destruct (refines c d ns q HI) as (_ & _ & I1 & _).
+  pose proof (ovfalse_entry_stable d ns q k0 cn HI EO G0 V) as V1.
+  destruct (refines d ns q HI) as (_ & _ & I1 & _).
   destruct (snd (mrun c (d, ns) q)) as [d1 ns1]. cbn [fst snd] in *. apply IH; assumption.
 Qed.
 
 End MachineCorollaries.
+
+(* =====================================================================================
+   the DiskDict of Model/DiskFS.v meets the store specification
+   ===================================================================================== *)
+Lemma mem_get_set_other {V} (k k' : dkey) (c : V) m : k' <> k -> mem_get k' (mem_set k c m) = mem_get k' m.
+Proof.
+  intros Hne. induction m as [|[q w] m IH]; cbn.
+  - destruct (dkey_eqb k k') eqn:E; [apply dkey_eqb_eq in E; congruence|reflexivity].
+  - destruct (dkey_eqb q k) eqn:E; cbn.
+    + apply dkey_eqb_eq in E. subst q.
+      destruct (dkey_eqb k k') eqn:E'; [apply dkey_eqb_eq in E'; congruence|reflexivity].
+    + destruct (dkey_eqb q k'); [reflexivity|exact IH].
+Qed.
+
+Section Instances.
+Variable encode : con -> bytes.
+Variable decode : bytes -> option con.
+Variable mr : nat.
+
+(* (i) directory=None: a plain dictionary *)
+Theorem mem_store_spec :
+  store_spec (ops_cur encode decode mr) (fun d => dd_dir d = false)
+             (fun d k => mem_get k (dd_mem d)) (fun _ => True).
+Proof.
+  unfold store_spec, ops_cur. cbn [o_contains o_getitem o_setitem]. repeat split.
+  - unfold contains_cur. cbn [fst]. rewrite H. destruct (mem_get k (dd_mem d)); reflexivity.
+  - exact H.
+  - unfold getitem_cur. rewrite H. cbn [negb]. destruct (mem_get k (dd_mem d)); reflexivity.
+  - unfold getitem_cur. rewrite H. cbn [negb]. destruct (mem_get k (dd_mem d)); exact H.
+  - intros k' _. unfold getitem_cur. rewrite H. cbn [negb]. destruct (mem_get k (dd_mem d)); reflexivity.
+  - exact H.
+  - cbn. apply mem_get_set_same.
+  - intros k' _ Hne. cbn. apply mem_get_set_other, Hne.
+Qed.
+
+(* (ii) a directory, directory_split=False (keys are plain strings), the code as it stands.
+   Invariant: the root exists; every top-level node is a complete entry file; what the
+   memory cache holds for a key is what the file holds. *)
+Hypothesis RT : forall c, decode (encode c) = Some c.
+
+Definition flat_inv (d : dd con) : Prop :=
+  dd_dir d = true /\ is_dir [] (dd_fs d) = true /\
+  (forall h, fs_get [h] (dd_fs d) = None \/ exists c, fs_get [h] (dd_fs d) = Some (FFile (encode c))) /\
+  (forall h c, mem_get (KS h) (dd_mem d) = Some c -> fs_get [h] (dd_fs d) = Some (FFile (encode c))).
+Definition flat_view (d : dd con) (k : dkey) : option con :=
+  match mem_get k (dd_mem d) with
+  | Some c => Some c
+  | None => match fs_get (kpath k) (dd_fs d) with Some (FFile b) => decode b | _ => None end
+  end.
+Definition flat_key (k : dkey) : Prop := exists h, k = KS h.
+
+Theorem flat_store_spec_cur :
+  store_spec (ops_cur encode decode (S mr)) flat_inv flat_view flat_key.
+Proof.
+  unfold store_spec, ops_cur. cbn [o_contains o_getitem o_setitem]. split; [|split].
+  - intros d k (Hd & Hr & Hf & Hm) [h ->]. unfold contains_cur, flat_view. cbn [fst snd kpath].
+    split; [|split; [repeat split; assumption|reflexivity]].
+    destruct (mem_get (KS h) (dd_mem d)); [reflexivity|]. rewrite Hd. unfold fs_exists.
+    destruct (Hf h) as [E|[c E]]; rewrite E; [reflexivity|]. rewrite RT. reflexivity.
+  - intros d k (Hd & Hr & Hf & Hm) [h ->]. unfold getitem_cur, flat_view. cbn [kpath].
+    destruct (mem_get (KS h) (dd_mem d)) as [c0|] eqn:M; cbn [fst snd].
+    + split; [reflexivity|]. split; [repeat split; assumption|reflexivity].
+    + rewrite Hd. cbn [negb]. unfold fs_exists, is_dir.
+      destruct (Hf h) as [E|[c E]]; rewrite E; cbn [negb fst snd].
+      * split; [reflexivity|]. split; [repeat split; assumption|reflexivity].
+      * cbn [retry]. unfold try_load. rewrite E, RT. cbn [fst snd dd_mem dd_dir dd_fs].
+        split; [reflexivity|]. split.
+        -- repeat split; try assumption. cbn [dd_mem]. intros h' c' M'.
+           rewrite mem_get_set_other in M' by (unfold tup; discriminate). apply Hm, M'.
+        -- intros k' [h' ->]. cbn [dd_mem]. rewrite mem_get_set_other by (unfold tup; discriminate). reflexivity.
+  - intros d k c (Hd & Hr & Hf & Hm) [h ->]. unfold setitem_cur, flat_inv, flat_view. cbn [dd_mem dd_dir dd_fs kpath].
+    rewrite Hd. unfold setitem_ops_cur, mkdir_ops. cbn [kpath length Nat.ltb Nat.leb app].
+    set (f1 := run_ops (OpenTrunc [h] :: map (fun b => Append [h] [b]) (encode c)) (dd_fs d)).
+    assert (ND : is_dir [h] (dd_fs d) = false).
+    { unfold is_dir. destruct (Hf h) as [E|[c0 E]]; rewrite E; reflexivity. }
+    assert (G : fs_get [h] f1 = Some (FFile (encode c))).
+    { unfold f1. change (OpenTrunc [h] :: ?l) with ([OpenTrunc [h]] ++ l). rewrite run_ops_app.
+      change (encode c) with ([] ++ encode c) at 2. apply appends_content.
+      cbn [run_ops fold_left]. unfold run_op. cbn [op_ok parent removelast]. rewrite Hr, ND. cbn [negb andb].
+      apply fs_get_set_same. }
+    assert (O : forall q, q <> [h] -> fs_get q f1 = fs_get q (dd_fs d)).
+    { intros q Hq. unfold f1. apply run_ops_untouched. intros o [<-|Ho]; [cbn; congruence|].
+      apply in_map_iff in Ho. destruct Ho as (b & <- & _). cbn. congruence. }
+    split; [|split].
+    + split; [reflexivity|]. split; [unfold is_dir; rewrite O by congruence; exact Hr|]. split.
+      * intros h'. destruct (list_eq_dec Nat.eq_dec h' h) as [->|Hne].
+        -- right. exists c. exact G.
+        -- rewrite O by congruence. apply Hf.
+      * intros h' c' M'. destruct (list_eq_dec Nat.eq_dec h' h) as [->|Hne].
+        -- rewrite mem_get_set_same in M'. inversion M'; subst. exact G.
+        -- rewrite mem_get_set_other in M' by congruence. rewrite O by congruence. apply Hm, M'.
+    + rewrite mem_get_set_same. reflexivity.
+    + intros k' [h' ->] Hne. rewrite mem_get_set_other by exact Hne. cbn [kpath].
+      rewrite O by congruence. reflexivity.
+Qed.
+
+(* a fresh process over the same directory holds the same entries ... *)
+Theorem fresh_view d k : flat_inv d -> flat_key k ->
+  flat_inv (fresh d) /\ flat_view (fresh d) k = flat_view d k.
+Proof.
+  intros (Hd & Hr & Hf & Hm) [h ->]. split.
+  - unfold fresh, flat_inv. cbn [dd_mem dd_dir dd_fs mem_get]. repeat split; try assumption. discriminate.
+  - unfold flat_view, fresh. cbn [dd_mem dd_fs mem_get kpath].
+    destruct (mem_get (KS h) (dd_mem d)) as [c|] eqn:M; [|reflexivity].
+    rewrite (Hm h c M), RT. reflexivity.
+Qed.
+
+(* ... hence answers every query exactly as the old process and keeps holding the same entries *)
+Theorem fresh_process_equiv (H : fpr -> name) orc c d ns q :
+  split c = false -> flat_inv d ->
+  let ops := ops_cur encode decode (S mr) in
+  fst (maybe_run H ops orc c (fresh d, ns) q) = fst (maybe_run H ops orc c (d, ns) q) /\
+  snd (snd (maybe_run H ops orc c (fresh d, ns) q)) = snd (snd (maybe_run H ops orc c (d, ns) q)) /\
+  (forall k, flat_key k -> flat_view (fst (snd (maybe_run H ops orc c (fresh d, ns) q))) k =
+                           flat_view (fst (snd (maybe_run H ops orc c (d, ns) q))) k).
+Proof.
+  intros ES HI ops.
+  assert (KG : forall c' q', split c' = false -> flat_key (key_of H c' q')).
+  { intros c' q' E. unfold key_of. rewrite E. eexists; reflexivity. }
+  apply (view_determines_behaviour H ops orc flat_inv flat_view flat_key (fun c' => split c' = false)
+           flat_store_spec_cur KG c ES (fresh d) d ns q).
+  - apply (fresh_view d (KS [])); [exact HI|eexists; reflexivity].
+  - exact HI.
+  - intros k Gk. apply fresh_view; assumption.
+Qed.
+End Instances.
+
+(* =====================================================================================
+   C15 end to end: with the fixed DiskDict, _maybe_run_optimizer never fails on whatever a
+   crashed writer left behind -- it answers, or (cache_only) raises the documented KeyError
+   ===================================================================================== *)
+Theorem maybe_run_fix_never_poisoned (H : fpr -> name) enc dec mr orc c st q :
+  let r := fst (maybe_run H (ops_fix enc dec mr) orc c st q) in
+  r <> UnboundErr /\ r <> OtherErr /\ (cache_only c = false -> exists b cn, r = Ok (b, cn)).
+Proof.
+  destruct st as [d ns]. unfold maybe_run. cbn [ops_fix o_contains o_getitem o_setitem].
+  destruct (contains_fix con dec mr d (key_of H c q)) as [present d1] eqn:EC.
+  destruct present.
+  - destruct (contains_fix_then_getitem _ _ _ _ _ _ EC) as (c0 & G & _).
+    cbn [negb orb].
+    destruct (getitem_fix con dec mr d1 (key_of H c q)) as [r d2] eqn:EG. cbn [fst] in G. subst r.
+    destruct (overwrite c); destruct (cache_only c); cbn;
+      try (destruct (c_score (orc ns q) <? c_score c0)%Z; cbn);
+      repeat split; try discriminate; try (intros _; eexists; eexists; reflexivity); intros X; discriminate X.
+  - cbn [negb orb]. destruct (cache_only c); destruct (overwrite c); cbn;
+      repeat split; try discriminate; try (intros _; eexists; eexists; reflexivity); intros X; discriminate X.
+Qed.
+
+(* and on the code as it stands the opposite holds: after the crash of Proofs/DiskFSFacts.v
+   crash_cur_poisons, a default (overwrite=False) query of that contraction raises
+   UnboundLocalError in every later process *)
+Theorem maybe_run_cur_poisoned (H : fpr -> name) enc dec mr orc c q v f ns :
+  dec [] = None -> is_dir [] f = true -> split c = false -> overwrite c = OvFalse ->
+  is_dir (kpath (key_of H c q)) f = false ->
+  let f1 := crash_at 1 (setitem_ops_cur con enc (key_of H c q) v) f in
+  fst (maybe_run H (ops_cur enc dec (S mr)) orc c (mkDD [] true f1, ns) q) = UnboundErr.
+Proof.
+  intros Hd Hr ES EO Hnd f1.
+  assert (EK : key_of H c q = KS (H (fingerprint (method_b c) q))) by (unfold key_of; rewrite ES; reflexivity).
+  unfold f1 in *. clear f1. rewrite EK in *. cbn [kpath] in Hnd.
+  destruct (crash_cur_poisons con enc dec (H (fingerprint (method_b c) q)) v f mr Hd Hr Hnd) as [C G].
+  set (d0 := mkDD [] true (crash_at 1 (setitem_ops_cur con enc (KS (H (fingerprint (method_b c) q))) v) f)) in *.
+  unfold maybe_run. rewrite EK. cbn [ops_cur o_contains o_getitem o_setitem].
+  unfold contains_cur in *. cbn [fst] in C. rewrite C. cbn [negb orb]. rewrite EO.
+  destruct (getitem_cur con dec (S mr) d0 (KS (H (fingerprint (method_b c) q)))) as [r d2] eqn:EG.
+  cbn [fst] in G. subst r. reflexivity.
+Qed.
